@@ -16,7 +16,7 @@ def main():
     ids = [i for i in ids if os.path.isdir(os.path.join(HERE, 'benign', i))]
     alarms = stale = 0
     lines = []
-    for i in ids:
+    for i in ids:  # serial over refactorings; each runs the twenty checks in parallel
         patch = os.path.join(HERE, 'benign', i, 'patch.diff')
         r = subprocess.run([sys.executable, os.path.join(HERE, 'tools', 'try_patch.py'), patch],
                            capture_output=True, text=True)
